@@ -297,11 +297,13 @@ class Explorer:
         cmpops = {'>=': lambda a, b: a >= b, '<=': lambda a, b: a <= b, '>': lambda a, b: a > b,
                   '<': lambda a, b: a < b, '=': lambda a, b: a == b}
         rhs_list = [(d, mk, otab) for (d, mk, otab) in self.ops]
+        rhs_list.append((('expr', [], 0), (lambda: self.m.Expr()), t_const(0)))
         rhs_list += [(('expr', list(c2[1]), c2[0]), (lambda c2=c2: rebuild(c2)), t2) for (c2, t2) in exprs]
         for (d, mk, otab) in rhs_list:
             for op, fn in cmpops.items():
                 E = rebuild(cn)
                 o = mk()
+                osnap = snap_operand(o)
                 if op == '>=':
                     q = E >= o
                 elif op == '<=':
@@ -315,6 +317,9 @@ class Explorer:
                 res.transitions += 1
                 res.traces += 1
                 self.check_ineq(q, tab, otab, op, fn, dict(build=how + [(op,) + tuple(d)]))
+                # building a comparison must leave both sides as they were (they may be used again)
+                if canon(E) != cn or (osnap is not None and snap_operand(o) != osnap):
+                    res.violation('operand-mutated', dict(build=how + [(op,) + tuple(d)]), dict(op=op), repr(cn), repr(canon(E)))
 
     def check_ineq(self, q, ltab, rtab, op, fn, case):
         m = self.m
